@@ -301,6 +301,11 @@ class Undefined(Exception):
     """the documented algorithm does not define a value (ill-typed input); the oracle then demands nothing"""
 
 
+class Unlinked(Undefined):
+    """the documented rules leave a destination field without a link (required, or optional while the policy
+    forbids skipping): the documentation says no converter exists then"""
+
+
 class Spec:
     """Locations are dicts {"kind","ty","field","pos"}; stacks are lists, bottom first (as in adaptix)."""
 
@@ -459,7 +464,7 @@ class Spec:
             lk = self.link(src_stack, src_cls, fstack)
             if lk is None:
                 if in_shape_field["required"] or not self.unlinked_allowed(fstack):
-                    raise Undefined("no converter is documented to exist")
+                    raise Unlinked(f"{dst_cls['name']}.{f['id']}")
                 if in_shape_field["default"] is not None:
                     out.append((f["id"], self.u.from_json(in_shape_field["default"])))
                 continue
